@@ -331,12 +331,12 @@ class LiteralMethod(DeserializationMethod):
 
     def deserialize(self, data: Any) -> Any:
         try:
-            return self.value_map[data]
+            return self.value_map[data.__class__, data]
         except KeyError:
             if self.coercer is not None:
                 for cls in self.types:
                     try:
-                        return self.value_map[self.coercer(cls, data)]
+                        return self.value_map[cls, self.coercer(cls, data)]
                     except KeyError:
                         pass
             raise ValidationError(format_error(self.error, data))
